@@ -38,6 +38,15 @@ def create(act, gname, src="SRC1"):
     return fr
 
 
+def _meta_q(fr, g):
+    """The drift rate in the frame's own metadata dictionary in quarter channels per row (99 = none)."""
+    md = getattr(fr, "metadata", None)
+    if not isinstance(md, dict) or "drift_rate" not in md:
+        return 99
+    q = float(md["drift_rate"]) / (g["df"] / g["dt"]) * 4.0
+    return int(round(q)) if abs(q - round(q)) < 1e-6 else q
+
+
 def project(fr, gname):
     g = GEOMS[gname]
     lo_f = (fr.fmin - g["f0"]) / g["df"]
@@ -48,13 +57,14 @@ def project(fr, gname):
             "t0": 7 if abs(fr.t_start - T0) < 1e-4 else fr.t_start, "src": str(fr.source_name),
             "tsoff": (int(round(fr.ts[0] / g["dt"])) if len(fr.ts) and abs(fr.ts[0] / g["dt"] - round(fr.ts[0] / g["dt"])) < 1e-6 else "off-grid"),
             "tsgap": (int(round((fr.ts[-1] - fr.ts[0]) / g["dt"])) - (len(fr.ts) - 1)) if len(fr.ts) > 1 else 0,
+            "meta": _meta_q(fr, g),
             "data": ids.tolist() if d.shape == (fr.tchans, fr.fchans) and np.all(np.abs(d - ids) < 1e-6) else "shape %s / non-integer" % (d.shape,),
             "axes_ok": (len(fr.fs) == fr.fchans and len(fr.ts) == fr.tchans and abs(fr.df - g["df"]) < 1e-9 * g["df"]
                         and abs(fr.dt - g["dt"]) < 1e-9 * g["dt"] and tuple(fr.shape) == (fr.tchans, fr.fchans))}
 
 
 def compare(exp, obs, cls, what):
-    for k in ("F", "T", "asc", "lo", "data", "tsoff", "tsgap"):
+    for k in ("F", "T", "asc", "lo", "data", "tsoff", "tsgap", "meta"):
         if exp[k] != obs[k]:
             raise Div(cls, "%s.%s" % (what, k), exp[k], obs[k])
     if not obs["axes_ok"]:
@@ -145,6 +155,13 @@ def replay(beh, gname, workdir, tag):
             try:
                 if name == "Create":
                     objs.append(create(act, gname, st["objs"][-1]["src"]))
+                    if st["objs"][-1].get("meta", 99) != 99:      # created with a drift rate in its bookkeeping dictionary
+                        objs[-1].add_metadata({"drift_rate": st["objs"][-1]["meta"] / 4.0 * g["df"] / g["dt"]})
+                elif name == "SetMeta":
+                    fo = objs[act["o"] - 1]
+                    (fo.add_metadata if k % 2 else fo.update_metadata)({"drift_rate": act["q"] / 4.0 * g["df"] / g["dt"]})
+                elif name == "DedriftMeta":
+                    objs.append(stg.dedrift(objs[act["o"] - 1]))      # the rate of the frame's own dictionary
                 elif name == "GetWaterfall":
                     objs[act["o"] - 1].get_waterfall()
                 elif name == "Copy":
@@ -202,6 +219,8 @@ def replay(beh, gname, workdir, tag):
                                 del fr.metadata["drift_rate"]
                         if not had and "drift_rate" in new.metadata and new.metadata is not fr.metadata:
                             del new.metadata["drift_rate"]
+                        if had and new.metadata is not fr.metadata:
+                            new.metadata["drift_rate"] = old
                     else:
                         had = "drift_rate" in fr.metadata
                         old = fr.metadata.get("drift_rate")
@@ -213,6 +232,12 @@ def replay(beh, gname, workdir, tag):
                                 fr.metadata["drift_rate"] = old
                             else:
                                 del fr.metadata["drift_rate"]
+                        # the rate was lent to the parent's dictionary for this one call: the child's copy goes back too
+                        if new.metadata is not fr.metadata:
+                            if had:
+                                new.metadata["drift_rate"] = old
+                            elif "drift_rate" in new.metadata:
+                                del new.metadata["drift_rate"]
                     objs.append(new)
                 elif name == "Integrate":
                     try:
@@ -259,7 +284,7 @@ def replay(beh, gname, workdir, tag):
                 got_st = type(e).__name__
                 msg = str(e)[:200]
             if got_st != exp_st:
-                cls = "C17" if name in ("Slice", "Dedrift", "Integrate") else "C03"
+                cls = "C17" if name in ("Slice", "Dedrift", "DedriftMeta", "SetMeta", "Integrate") else "C03"
                 raise Div(cls + "|C12" if name in ("Copy", "Pickle") else cls, "%s.status" % name, exp_st, got_st if got_st == "ok" else "%s: %s" % (got_st, msg))
             if len(objs) != len(st["objs"]):
                 raise RuntimeError("adapter out of sync with the spec")
